@@ -315,8 +315,8 @@ HARNESSES = {
                              fixed=dict(n=2, k3=0, f3=0, nk2=3, nf2=1), budget_s=100),
                'thorough': dict(split=dict(k1=list(range(NK)), k2=list(range(NK)),
                                            indent_all=[False, True]),
-                                fixed=dict(n=2, k3=0, f3=0, nk2=13, nf2=12), budget_s=900)},
-        bounds='2 statements in either order: one from 13 kinds with every combination of at most two of 8 layout features, the other from 3 kinds in default layout (quick) / 13 kinds x {default, each single feature} (thorough); kinds: (flat/scoped bindings, macro definitions, 4 import '
+                                fixed=dict(n=2, k3=0, f3=0, nk2=13, nf2=3), budget_s=900)},
+        bounds='2 statements in either order: one from 13 kinds with every combination of at most two of 8 layout features, the other from 3 kinds in default layout (quick) / 13 kinds x {default, 1 or 2 blank lines before} (thorough); kinds: (flat/scoped bindings, macro definitions, 4 import '
                'forms, include, blocks, reference/macro values); per statement every combination of at most two of 8 '
                'layout features (blank lines, comment line, trailing comment, 3 spacings of =, value broken inside '
                'brackets with comments, backslash continuation, flat vs block, header comment, blank/comment lines '
